@@ -52,11 +52,14 @@ def cases(tier: str):
                     for ck, ct in cachings[: n + 1]:
                         for ck2, ct2 in cachings:
                             yield dict(n=n, es=es, with_param=with_param, special="rewrite", caching=[ck, ct], caching2=[ck2, ct2])
+                            if ck2 == "whole":
+                                yield dict(n=n, es=es, with_param=with_param, special="rewrite", caching=[ck, ct], caching2=[ck2, ct2], prebuilt=True)
     # cache_deps_of naming two nodes; cache_deps_of with a debug node downstream and RUN_DEBUG_NODES on
     for n in (2, 3, 4):
         for es in shapes(n):
             if n == 4 and len(es) > 3:
                 continue
+            yield dict(n=n, es=es, special="default_arg")
             yield dict(n=n, es=es, special="deps2")
             yield dict(n=n, es=es, special="deps_debug")
 
@@ -77,6 +80,48 @@ def sel_of(p, kind, t):
     return set(range(len(p.nodes)))
 
 
+def run_default_arg(acc, c):
+    """a DAG argument WITH a default, given explicitly to the caching run and NOT repeated at the restart: nodes that are re-executed
+    read the cached argument (the restart returns what the caching run returned)"""
+    n = c["n"]
+    p0 = prog_of(dict(n=n, es=[tuple(e) for e in c["es"]], res=("tm" * n)[:n], mc=2))
+    nodes = list(p0.nodes)
+    for i in range(n):
+        nodes[i] = GNode(**{**nodes[i].__dict__, "edges": nodes[i].edges + (Edge(-1, "kw"),)})  # every node reads the argument directly
+    p = GProg(nodes=tuple(nodes), mc=2, params=(("x", "dflt"),))
+    ids = p.ids()
+    src = p.source()
+    acc.cases += 1
+    tmp = os.environ.get("VERIF_TMP", "/tmp")
+    path = os.path.join(tmp, "cache_da.pkl")
+    for t in range(n):
+        d1, _ = build_gprog(p)
+        res1 = H.run_controlled(lambda: d1.executor(cache_deps_of=[ids[t]], cache_in=path)("given"))
+        acc.evaluations += 1
+        if res1.outcome != "return":
+            acc.violation(V("caching_run_failed", f"cache_deps_of=[{ids[t]}] raised {res1.exc!r}"), c, (), res1.trace, src)
+            continue
+        serial1 = next((e[2] for e in res1.trace if e[0] == "enter"), None)
+        content = pickle.load(open(path, "rb"))  # noqa: S301
+        cached = {i for i in range(n) if ids[i] in content}
+        d2, _ = build_gprog(p)
+        res2 = H.run_controlled(lambda: d2.executor(cache_deps_of=[ids[t]], from_cache=path)())  # argument NOT repeated
+        acc.evaluations += 1
+        sel = sel_of(p, "deps", t)
+        v2 = View(p, res2, sel, {i: serial1 for i in cached}, False, ("given",))
+        if res2.outcome != "return":
+            acc.violation(V("restart_failed", f"restart without repeating the defaulted argument raised {res2.exc!r}"), dict(c, t=t), (), res2.trace, src)
+            continue
+        for m in (mon_c02, mon_c03):
+            for viol in m(v2):
+                acc.violation(dict(viol, kind="default_arg_" + viol["kind"], msg=f"restart of cache_deps_of=[{ids[t]}] without repeating x='given': " + viol["msg"]), dict(c, t=t), (), res2.trace, src)
+        acc.mark_nontrivial((repr(c), t))
+    acc.states += n
+    acc.transitions += n
+    if os.path.exists(path):
+        os.remove(path)
+
+
 def run_rewrite(acc, c):
     """One DAG instance and one path: caching run #1, restart, caching run #2 that rewrites the file, restart again.
     The second restart must start from what the file holds NOW."""
@@ -92,6 +137,13 @@ def run_rewrite(acc, c):
     a1 = ("c1",) if c["with_param"] else ()
     a2 = ("c2",) if c["with_param"] else ()
     for rnd, ((ck, ct), args) in enumerate(((c["caching"], a1), (c["caching2"], a2))):
+        early_restart = None
+        if rnd == 1 or c.get("prebuilt"):
+            try:
+                # the restarting executor is prepared BEFORE the file is (re)written; it must read the file when it RUNS
+                early_restart = d.executor(**kw_of(ids, ck, ct, path, "r"))
+            except FileNotFoundError as e:
+                acc.violation(V("restart_executor_reads_file_early", f"constructing executor(from_cache=...) before the file exists raised {e!r}"), c, (), None, src)
         res = H.run_controlled(lambda: d.executor(**kw_of(ids, ck, ct, path, "w"))(*args))
         acc.evaluations += 1
         if res.outcome != "return":
@@ -101,7 +153,10 @@ def run_rewrite(acc, c):
         content = pickle.load(open(path, "rb"))  # noqa: S301
         cached = {i for i in range(len(ids)) if ids[i] in content}
         rk, rt = (ck, ct)
-        res2 = H.run_controlled(lambda: d.executor(**kw_of(ids, rk, rt, path, "r"))(*args))
+        if early_restart is not None:
+            res2 = H.run_controlled(lambda: early_restart(*args))
+        else:
+            res2 = H.run_controlled(lambda: d.executor(**kw_of(ids, rk, rt, path, "r"))(*args))
         acc.evaluations += 1
         sel2 = sel_of(p, rk, rt)
         v2 = View(p, res2, sel2, {i: serial for i in cached}, False, args)
@@ -201,6 +256,8 @@ def run_special(acc, c):
 def run_one(acc, c):
     if c.get("special") == "rewrite":
         return run_rewrite(acc, c)
+    if c.get("special") == "default_arg":
+        return run_default_arg(acc, c)
     if c.get("special"):
         return run_special(acc, c)
     p = make_prog(c["n"], [tuple(e) for e in c["es"]], c["with_param"], c.get("none_node"))
